@@ -22,6 +22,9 @@ import (
 
 func c06Gen(r *Rand, tier string) interface{} {
 	in := &cacheIn{Remote: genTree(r, 8)}
+	// seven histories in eight run fault-free only (remote untouched before Commit, remote =
+	// model after every Commit): they cost a hundredth of a fault-enumerated one
+	in.Light = r.Chance(7, 8)
 	n := 1 + r.Intn(25)
 	if r.Chance(1, 3) {
 		n = 1 + r.Intn(6)
@@ -209,6 +212,10 @@ func c06Run(inI interface{}, env *Env) *Failure {
 		env.Count("probe.history-cut")
 		return nil
 	}
+	if in.Light {
+		env.Count("probe.fault-free-histories-without-enumeration")
+		return nil
+	}
 	env.CountN("commit.remote-io-positions", dry.positions)
 	faulted := func(pos int, where string) *Failure {
 		kinds := []string{""}
@@ -269,7 +276,7 @@ func init() {
 		New:    func() interface{} { return &cacheIn{} },
 		Run:    c06Run,
 		Shrink: cacheShrink,
-		Rule: "one case = (initial remote tree <=8 nodes, 1-25 cache operations on overlapping pool paths, optional intermediate Commits); execution 0 fault-free (remote untouched before Commit, remote = model after), then the final Commit is re-executed once per remote I/O position x applicable fault kind (op-error, read/write-error, torn-write, close-error): EVERY position of that Commit is faulted, once more with a second fault in the recovery Commit (two failed Commits in a row, then a fault-free one); journal iteration order inside Commit is a seeded choice; " +
+		Rule: "one case = (initial remote tree <=8 nodes, 1-25 cache operations on overlapping pool paths, optional intermediate Commits); seven cases in eight are executed fault-free only; for the others: execution 0 fault-free (remote untouched before Commit, remote = model after), then the final Commit is re-executed once per remote I/O position x applicable fault kind (op-error, read/write-error, torn-write, close-error): EVERY position of that Commit is faulted, once more with a second fault in the recovery Commit (two failed Commits in a row, then a fault-free one); journal iteration order inside Commit is a seeded choice; " +
 			"every case is non-trivial; distinct = distinct (remote tree, operations, commit points)",
 		Real:        []string{"filesystem/fscache (Cache, Commit)", "filesystem/fshelper (StreamCopy, Copier, Copy incl. fsloop, SubFS)", "memfs buffer and memfs remote"},
 		Stub:        []string{"FaultFS around the remote", "sync primitives, scheduler, clock (simrt)"},
